@@ -51,7 +51,12 @@ def gen(r, tier, i):
     for j in range(k):
         nv = r.choice([1, 1, 2])
         vs = r.sample(VARS, nv)
-        events.append([r.choice(TIMES), [[v, 100 * (j + 1) + r.randint(0, 9) if r.random() < 0.8 else 'v%d' % j] for v in vs]])
+        def value(j):
+            k = r.random()
+            if k < 0.15:
+                return r.choice([0, 0.0, False, ''])      # switching something off: falsy values are values too
+            return 100 * (j + 1) + r.randint(0, 9) if k < 0.85 else 'v%d' % j
+        events.append([r.choice(TIMES), [[v, value(j)] for v in vs]])
     share = []
     if len(events) >= 2 and r.random() < 0.35:
         # on/off protocols: one change-dict object listed at several times
@@ -116,7 +121,8 @@ def run(spec):
                 node = sch
                 for k in var[:-1]:
                     node = node.setdefault(k, {})
-                node[var[-1]] = {'_default': 0, '_emit': True, '_updater': 'set'}
+                # (the declared default differs from every value the events set and from the initial 0)
+                node[var[-1]] = {'_default': 5, '_emit': True, '_updater': 'set'}
             return sch
 
         def next_update(self, timestep, states):
